@@ -807,10 +807,19 @@ def must_check_cache(A: Analysis, col: Collector, R: RunFn, rule: str):
 def tolerant_reader(A: Analysis, col: Collector, rule: str):
     """every unpickling of _result.pklz in load_result sits in a handler for
     UnpicklingError/EOFError inside a bounded loop whose exhaustion returns None."""
-    fn = A.func("pydra.engine.result.load_result")
-    col.scope(fn.qualname)
-    loads = [c for c in A.calls(fn) if any(n in ("cloudpickle.load", "pickle.load", "cloudpickle.loads", "pickle.loads") for n in A.callee_names(c, fn))]
-    A.anchor("cp.load in load_result", loads)
+    top = A.func("pydra.engine.result.load_result")
+    is_load = lambda f_, c_: any(n in ("cloudpickle.load", "pickle.load", "cloudpickle.loads", "pickle.loads") for n in A.callee_names(c_, f_))
+    fn = top
+    loads = [c for c in A.calls(fn) if is_load(fn, c)]
+    if not loads:
+        # the unpickling may live in a helper of the same module (refactoring): analyse it there
+        for g in A.closure(A.callees(top), limit=30):
+            if g.module is top.module and any(is_load(g, c) for c in A.calls(g)):
+                fn = g
+                loads = [c for c in A.calls(fn) if is_load(fn, c)]
+                break
+    col.scope(top.qualname, fn.qualname)
+    A.anchor("cp.load in load_result (or a helper in its module)", loads)
     for c in loads:
         handled = set()
         bounded = False
@@ -1383,6 +1392,9 @@ def check_c19(A: Analysis, col: Collector):
         col.fail("C19.hash-check", hc.qualname, "hash-changes-recompute-args", "Task._hash_changes passes arguments to _compute_hashes (partial recomputation)", A.loc(hc.node))
     # (c) staged inputs are what the body sees
     staged_inputs_rule(A, col, "C19.staging")
+    from .misc import _copy_nested_core
+
+    _copy_nested_core(A, col, "C19.staging")
 
 
 def staged_inputs_rule(A: Analysis, col: Collector, rule: str):
